@@ -191,7 +191,7 @@ class TexturedTriMesh(TriMesh):
             A new trimesh created from the vector with ``self`` trilist.
         """
         new = TexturedTriMesh(
-            flattened.reshape([-1, self.n_dims]),
+            flattened.reshape(self.points.shape),
             self.tcoords.points,
             self.texture,
             trilist=self.trilist,
